@@ -34,6 +34,9 @@ CLAIMS = {
     "C07": ("TLA+ spec of the documented total order (ECmp: sign of the coefficient difference at the largest differing monomial under sort_graded/sort_reverse); TLC trace validation of all six operators, three spellings, maximum/minimum",
             "Pairs and triples of polynomials (small random ones, perturbed copies that differ below the leading term, and polynomials with up to 30 terms of equal total degree) are compared with all six operators through operator / numpy / numpoly spellings under the four sort settings, which are set in the real process and tracked by the option machine; TLC recomputes each verdict from the TLA+ definition of the order and demands a bool array of the broadcast shape with exactly those values; maximum/minimum must return the larger/smaller operand element.",
             "DESIGN.md section 6 C07"),
+    "C08": ("TLA+ spec: registries as observations, 'same result' relation between spellings, FeatureNotSupported rule for everything numpoly does not register; TLC trace validation; the complete list of overridable numpy / numpy.linalg / numpy.fft functions, ufuncs and ufunc methods is probed on every run",
+            "(a) Registered operations are executed through two different spellings (operator, numpy function, numpoly function, method, ufunc.reduce / accumulate) and TLC demands identical type, shape, dtype, names and denotation, in addition to each being judged against the specification; /, % and divmod are bound to poly_divide / poly_remainder / poly_divmod in C05. (b) Every public numpy function that takes part in the __array_function__ protocol (found mechanically; `like=` creators excluded), every public ufunc and the methods reduce / accumulate / outer / at / reduceat of every binary ufunc are called with a polynomial (arguments synthesised from the signature, dispatch confirmed by a spy on __array_function__): unless numpoly's registries, read at run time, map the call, TLC requires FeatureNotSupported.",
+            "DESIGN.md section 6 C08"),
     "C09": ("TLA+ spec; gather maps observed from numpy on label arrays and, for the core functions, defined in TLA+ and cross-checked; TLC trace validation",
             "Every shape function / index expression is executed on arrays of pairwise distinct polynomials; the movement of positions numpy performs is observed on integer label arrays (and for reshape, transpose, concatenate and basic indexing also computed from the TLA+ gather maps of Shape.tla and compared), and TLC checks that each result element is exactly the operand element that numpy puts there, that names and dtype are preserved, plus the global clauses.",
             "DESIGN.md section 6 C09"),
@@ -46,6 +49,9 @@ CLAIMS = {
     "C19": ("TLA+ spec of leading monomial / coefficient under a monomial order, decomposition, set_dimensions, the sort-proxy relation; TLC trace validation",
             "lead_exponent/lead_coefficient (all flag choices), isconstant, tonumpy (error for non-constants), todict, decompose (slices sum to the input, one monomial per slice), set_dimensions 1..5, sortable_proxy (a permutation respecting leading exponent then leading coefficient) and argmax/argmin/amax/amin without axis are executed on arrays with zero elements, equal leading terms, negative leading coefficients and many same-degree terms; TLC recomputes every answer from the exact polynomial.",
             "DESIGN.md section 6 C19"),
+    "C11": ("TLA+ spec: relational layer - numpoly's result on constant polynomials must equal numpy's result on the underlying arrays (both observed), numeric division by a non-constant polynomial must raise; TLC trace validation",
+            "About 55 mirrored functions (element-wise unary and binary, comparisons, logical, rounding, isclose/allclose, floor_divide / remainder / divmod, reductions with axis / axis-tuple / keepdims, argmax / argmin, count_nonzero, nonzero, shape helpers) are called on constant polynomials of 0-3 dimensions with repeated values, negatives and zeros through numpoly and numpy spellings; the event carries numpy's own result on the raw arrays and TLC requires equal shape and values (and ndarray type / dtype for boolean and index results). true_divide / divide / floor_divide / remainder / divmod with a non-constant polynomial divisor must raise FeatureNotSupported.",
+            "DESIGN.md section 6 C11"),
     "C12": ("TLA+ model of numpy's dtype promotion and casts (bound to numpy.result_type / astype on every run), exact-value casts on polynomials; poisoning numpy allocator; TLC trace validation",
             "All 14 dtypes and random ordered pairs: construction from data of a dtype, dtype= requests in polynomial / aspolynomial / polynomial_from_attributes / variable / symbols, astype, +,-,* between dtypes with and without broadcasting, shape functions and indexing; TLC demands numpy's promoted dtype (from the TLA+ promotion rules, themselves checked against numpy.result_type in the same run) and the exact values cast like numpy casts. Every worker process runs with a numpy allocator that fills fresh buffers with 0xA5, and the no-poison clause is evaluated on every result of every driver of every property, including results whose terms all cancel.",
             "DESIGN.md section 6 C12"),
